@@ -185,7 +185,7 @@ def run_driver(root, i, modes='none,fail,cancel,failcancel', maxruns=200, seed=1
     env = dict(os.environ)
     env.update({'VERIF_OUT': out, 'VERIF_MODES': modes, 'VERIF_MAXRUNS': str(maxruns), 'VERIF_SEED': str(seed),
                 'GORACE': 'halt_on_error=0 exitcode=66 log_path=%s' % os.path.join(root, i, 'race-%s' % (decl or 'x')),
-                'GOTRACEBACK': 'all'})
+                'GOTRACEBACK': 'all', 'VERIF_YIELD': '1'})
     if gomaxprocs:
         env['GOMAXPROCS'] = str(gomaxprocs)
     if decl:
